@@ -424,3 +424,61 @@ Proof.
       [apply Hl; left; reflexivity | exact Eb]. }
   apply (G _ (fun b Hb => Hb) ch HF).
 Qed.
+
+(* ---------------- final_ok_tail is implied by the theorems ---------------- *)
+Lemma lin_level_app : forall a b l0, lin_level (a ++ b) l0 = lin_level b (lin_level a l0).
+Proof. intros a b l0. unfold lin_level. apply fold_left_app. Qed.
+
+Lemma skipn_firstn_mid' : forall (i x f : list N),
+  firstn (length (i ++ x ++ f) - length i - length f) (skipn (length i) (i ++ x ++ f)) = x.
+Proof.
+  intros i x f. rewrite skipn_app_len. rewrite !app_length.
+  replace (length i + (length x + length f) - length i - length f)%nat with (length x) by lia.
+  apply firstn_app_len.
+Qed.
+
+(* s1: the parallel part (only goroutines of progs, all of which have returned after it);
+   s2: the rest (only the tail goroutine has anything left to do) *)
+Lemma final_ok_tail_sound : forall c0 progs tail s1 s2 st1 tr1 st2 tr2 final,
+  crun (cinit c0 (progs ++ [tail])) s1 = (st1, tr1) -> crun st1 s2 = (st2, tr2) ->
+  (forall t, In t s1 -> (t < length progs)%nat) ->
+  (forall t, (t < length progs)%nat -> cops_of t st1 = []) ->
+  all_returned cop core st2 = true ->
+  clevel c0 <= 2 -> (forall p l, In p (progs ++ [tail]) -> In (CSetLevel l) p -> l <= 2) ->
+  expand final = probe (snd (m_cell st2)) ->
+  final_ok_tail c0 progs tail final = true.
+Proof.
+  intros c0 progs tail s1 s2 st1 tr1 st2 tr2 final H1 H2 Hs1 Hdone Hret Hc0 Hops He.
+  destruct (run_tail cop core fn (cpure core_with) cident cprog cfn cop_is_read
+              cprog_shape cident_pure cread_pure c0 progs tail s1 s2 st1 tr1 st2 tr2 H1 H2 Hs1 Hdone Hret)
+    as (_ & Hp & Ho & Hcell).
+  change (apply_op cop core fn (cpure core_with) cfn) with capply in Hcell.
+  assert (Habs : abs (snd (m_cell st2)) = fold_left sapply (untag cop tr1 ++ tail) (abs c0)).
+  { rewrite Hcell. apply abs_fold_capply. }
+  rewrite fold_sapply in Habs.
+  change (fst (abs c0)) with (cfields c0) in Habs. change (snd (abs c0)) with (clevel c0) in Habs.
+  rewrite flat_map_app', lin_level_app in Habs.
+  set (X1 := flat_map cop_fields (untag cop tr1)) in *.
+  set (l1 := lin_level (untag cop tr1) (clevel c0)) in *.
+  set (lf := lin_level tail l1) in *.
+  assert (Hl1in : In l1 (final_levels c0 progs)) by (apply lin_level_admitted; assumption).
+  assert (Hl1le : l1 <= 2).
+  { eapply final_levels_bound; [exact Hc0 | | exact Hl1in].
+    intros p l Hp' Hl. apply (Hops p l); [apply in_or_app; left; exact Hp' | exact Hl]. }
+  assert (Hlf : lf = match last_level tail None with Some l => l | None => l1 end).
+  { unfold lf. pose proof (lin_level_last tail None l1) as E. cbn in E. symmetry. exact E. }
+  assert (Hlfle : lf <= 2).
+  { rewrite Hlf. destruct (last_level tail None) as [l|] eqn:El; [|exact Hl1le].
+    destruct (last_level_in _ _ _ El) as [? | Hi]; [discriminate|].
+    apply (Hops tail l); [apply in_or_app; right; left; reflexivity | exact Hi]. }
+  unfold final_ok_tail. rewrite He, probe_abs, Habs.
+  rewrite sprobe_error_entry by exact Hlfle.
+  rewrite skipn_firstn_mid', fields_eqb_refl. cbn [andb].
+  apply andb_true_iff. split; [apply andb_true_iff; split|].
+  - apply perm_eqb_complete. apply flat_map_perm. exact Hp.
+  - apply forallb_forall. intros p Hpin. destruct (In_nth _ _ [] Hpin) as (t & _ & <-).
+    rewrite <- (Ho t). apply subseq_ops_of.
+  - apply existsb_exists. exists lf. split; [|apply probe_eqb_refl].
+    rewrite Hlf. destruct (last_level tail None); [left; reflexivity | exact Hl1in].
+Qed.
+
